@@ -341,7 +341,7 @@ def eager_contraction_tensor(red_op, bin_op, reduced_vars, *terms):
     if not all(term.dtype == "real" for term in terms):
         raise NotImplementedError("TODO")
     backend = BACKEND_TO_EINSUM_BACKEND[get_backend()]
-    return _eager_contract_tensors(reduced_vars, terms, backend=backend)
+    return _eager_contract_tensors(red_op, reduced_vars, terms, backend=backend)
 
 
 @eager.register(Contraction, ops.LogaddexpOp, ops.AddOp, frozenset, Tensor, Tensor)
@@ -349,11 +349,19 @@ def eager_contraction_tensor(red_op, bin_op, reduced_vars, *terms):
     if not all(term.dtype == "real" for term in terms):
         raise NotImplementedError("TODO")
     backend = BACKEND_TO_LOGSUMEXP_BACKEND[get_backend()]
-    return _eager_contract_tensors(reduced_vars, terms, backend=backend)
+    return _eager_contract_tensors(red_op, reduced_vars, terms, backend=backend)
 
 
 # TODO Consider using this for more than binary contractions.
-def _eager_contract_tensors(reduced_vars, terms, backend):
+def _eager_contract_tensors(red_op, reduced_vars, terms, backend):
+    # Reduced variables that no term mentions contribute a multiplicity.
+    related = frozenset(
+        v for v in reduced_vars if any(v in term.input_vars for term in terms)
+    )
+    if related != reduced_vars:
+        result = _eager_contract_tensors(red_op, related, terms, backend)
+        return result.reduce(red_op, reduced_vars - related)
+
     iter_symbols = map(opt_einsum.get_symbol, itertools.count())
     symbols = defaultdict(functools.partial(next, iter_symbols))
 
